@@ -597,6 +597,46 @@ func c09Effects(c *Ctx, g *load.G) {
 		return true
 	})
 	r.Check(okRemove, "C09-f", "G.ast.optimize:absorbed-alternative-removed", "", g.Where(fd.Pos()), "element i is removed exactly when a merge was applied", "the removal of the absorbed alternative is not `if combined { drop element i }`")
+	optimizerInlining(c, g, "C09-f")
+	// (6) duplicate removal keeps every distinct member
+	cf := load.FuncDecl(ap, "grammarOptimizer", "cleanupCharClassMatcher")
+	if cf != nil {
+		kept := map[string]bool{}
+		ast.Inspect(cf.Body, func(n ast.Node) bool {
+			is, ok := n.(*ast.IfStmt)
+			if !ok || is.Init == nil || nospace(is.Cond) != "!ok" {
+				return true
+			}
+			for _, st := range is.Body.List {
+				if as, ok := st.(*ast.AssignStmt); ok && strings.HasPrefix(nospace(as.Rhs[0]), "append("+nospace(as.Lhs[0])+",") {
+					kept[nospace(as.Lhs[0])] = true
+				}
+			}
+			return true
+		})
+		installs := map[string]bool{}
+		ast.Inspect(cf.Body, func(n ast.Node) bool {
+			if as, ok := n.(*ast.AssignStmt); ok && strings.HasPrefix(nospace(as.Lhs[0]), "chr.") && kept[nospace(as.Rhs[0])] {
+				installs[nospace(as.Lhs[0])] = true
+			}
+			return true
+		})
+		ok := kept["chars"] && kept["ranges"] && kept["unicodeClasses"] && installs["chr.Chars"] && installs["chr.Ranges"] && installs["chr.UnicodeClasses"]
+		r.Check(ok, "C09-f", "G.ast.cleanupCharClassMatcher:keeps-every-distinct-member", "", g.Where(cf.Pos()), "each of the three lists is rebuilt by appending every not-yet-seen member", fmt.Sprintf("rebuilt lists %v, installed %v: members of a merged class are lost", keysOf(kept), keysOf(installs)))
+	}
+}
+
+// optimizerInlining: (4) a reference is replaced by a clone only when the referenced rule is defined and has no entry
+// in ruleUsesRules; (5) ruleUsesRules / ruleUsedByRules record every reference, unconditionally. Together: the clone
+// contains no reference, so one inlining step cannot trigger another and the Walk over the rewritten tree terminates.
+func optimizerInlining(c *Ctx, g *load.G, rule string) {
+	r := c.R
+	ap := g.Pkg("ast")
+	fd := load.FuncDecl(ap, "grammarOptimizer", "optimize")
+	if fd == nil {
+		r.Fatal("anchor grammarOptimizer.optimize not found")
+		return
+	}
 	// (4) inlining guard
 	or := load.FuncDecl(ap, "grammarOptimizer", "optimizeRule")
 	okInline := false
@@ -628,7 +668,7 @@ func c09Effects(c *Ctx, g *load.G) {
 			why += fmt.Sprintf("; usesRules := %s, defined := %s", defs["usesRules"], defs["defined"])
 		}
 	}
-	r.Check(okInline, "C09-f", "G.ast.optimizeRule:inline-only-defined-leaf-rules", "", "ast/ast_optimize.go", "a reference is replaced by a clone only if the rule is defined and references no rule", why+": inlining a rule that references rules can recurse without end or drop the bookkeeping of its references")
+	r.Check(okInline, rule, "G.ast.optimizeRule:inline-only-defined-leaf-rules", "", "ast/ast_optimize.go", "a reference is replaced by a clone only if the rule is defined and references no rule", why+": inlining a rule that references rules can recurse without end or drop the bookkeeping of its references")
 	// (5) bookkeeping
 	setf := load.FuncDecl(ap, "", "set")
 	okSet := false
@@ -644,6 +684,7 @@ func c09Effects(c *Ctx, g *load.G) {
 	}
 	initf := load.FuncDecl(ap, "grammarOptimizer", "init")
 	okInit := false
+	initWhy := ""
 	if initf != nil {
 		var cs []string
 		for _, ce := range callsIn(initf.Body) {
@@ -657,6 +698,30 @@ func c09Effects(c *Ctx, g *load.G) {
 		}
 		sort.Strings(cs)
 		okInit = strings.Join(cs, "|") == "r.ruleUsedByRules,expr.Name.Val,r.rule|r.ruleUsesRules,r.rule,expr.Name.Val"
+		// ... on every path of the RuleRefExpr case, for every reference (a self reference included: a rule that
+		// references only itself must not look like a leaf, or it is inlined into its own clone without end)
+		if si := typeSwitchOn(initf, firstParam(initf)); si.HasSwitch && si.Cases["RuleRefExpr"] != nil {
+			for _, p := range enumPaths(&ast.BlockStmt{List: si.Cases["RuleRefExpr"].Body}) {
+				n := 0
+				for _, e := range p {
+					switch {
+					case e.Kind == "call" && strings.HasPrefix(e.Text, "set("):
+						n++
+					case e.Kind == "+" || e.Kind == "-" || e.Kind == "branch" || e.Kind == "return" && n < 2:
+						okInit = false
+						initWhy = "a reference is recorded only under [" + strings.Join(p.guards(), " ") + "] / before a " + e.Kind
+					}
+				}
+				if n != 2 {
+					okInit = false
+					if initWhy == "" {
+						initWhy = "a path of the RuleRefExpr case records " + fmt.Sprint(n) + " of the 2 directions"
+					}
+				}
+			}
+		} else {
+			okInit = false
+		}
 	}
 	var cleanup []string
 	ast.Inspect(fd.Body, func(n ast.Node) bool {
@@ -666,32 +731,6 @@ func c09Effects(c *Ctx, g *load.G) {
 		return true
 	})
 	okClean := len(cleanup) == 2 && strings.HasSuffix(cleanup[0], "kk==rule.Name.Val]") && strings.HasSuffix(cleanup[1], "kk==rule.Name.Val;len(r.ruleUsedByRules[k])==0]")
-	r.Check(okSet && okInit && okClean, "C09-f", "G.ast.optimizer:reference-bookkeeping", "", "ast/ast_optimize.go", "uses/used-by recorded for every reference; a removed rule is deleted from exactly its entries",
-		fmt.Sprintf("set-inserts=%t both-directions-recorded=%t cleanup=%v: rules still referenced can be removed (or unused ones kept)", okSet, okInit, cleanup))
-	// (6) duplicate removal keeps every distinct member
-	cf := load.FuncDecl(ap, "grammarOptimizer", "cleanupCharClassMatcher")
-	if cf != nil {
-		kept := map[string]bool{}
-		ast.Inspect(cf.Body, func(n ast.Node) bool {
-			is, ok := n.(*ast.IfStmt)
-			if !ok || is.Init == nil || nospace(is.Cond) != "!ok" {
-				return true
-			}
-			for _, st := range is.Body.List {
-				if as, ok := st.(*ast.AssignStmt); ok && strings.HasPrefix(nospace(as.Rhs[0]), "append("+nospace(as.Lhs[0])+",") {
-					kept[nospace(as.Lhs[0])] = true
-				}
-			}
-			return true
-		})
-		installs := map[string]bool{}
-		ast.Inspect(cf.Body, func(n ast.Node) bool {
-			if as, ok := n.(*ast.AssignStmt); ok && strings.HasPrefix(nospace(as.Lhs[0]), "chr.") && kept[nospace(as.Rhs[0])] {
-				installs[nospace(as.Lhs[0])] = true
-			}
-			return true
-		})
-		ok := kept["chars"] && kept["ranges"] && kept["unicodeClasses"] && installs["chr.Chars"] && installs["chr.Ranges"] && installs["chr.UnicodeClasses"]
-		r.Check(ok, "C09-f", "G.ast.cleanupCharClassMatcher:keeps-every-distinct-member", "", g.Where(cf.Pos()), "each of the three lists is rebuilt by appending every not-yet-seen member", fmt.Sprintf("rebuilt lists %v, installed %v: members of a merged class are lost", keysOf(kept), keysOf(installs)))
-	}
+	r.Check(okSet && okInit && okClean, rule, "G.ast.optimizer:reference-bookkeeping", "", "ast/ast_optimize.go", "uses/used-by recorded for every reference; a removed rule is deleted from exactly its entries",
+		fmt.Sprintf("set-inserts=%t both-directions-recorded=%t %s cleanup=%v: rules still referenced can be removed (or unused ones kept), and a rule whose references are not all recorded passes for a leaf and is inlined although it still references rules (without end if it references itself)", okSet, okInit, initWhy, cleanup))
 }
